@@ -53,6 +53,7 @@ class State:
         self.env = dict(env or {})
         self.conds = list(conds or [])
         self.cvals = []         # (canonical value of the condition, polarity), parallel to conds
+        self.cexprs = []        # (value of the condition or None, polarity), parallel to conds
         self.ret = None
         self.done = False
         self.loopctl = None     # 'break' / 'continue'
@@ -62,6 +63,7 @@ class State:
         s = State(self.env, self.conds)
         s.calls = list(self.calls)
         s.cvals = list(self.cvals)
+        s.cexprs = list(self.cexprs)
         return s
 
     def sym(self, key):
@@ -119,6 +121,7 @@ class SymExec:
         self.symbolic_loops = set(symbolic_loops)   # loop variables kept symbolic: the body is evaluated once for a generic iteration
         self.loops_seen = []    # (variable, init, condition text) of the symbolic loops met
         self.opaque = {}        # symbol name -> (function name, [argument values])
+        self.atoms = {}         # symbol name of a comparison / negation / conjunction -> ("cmp", op, a, b) | ("not", v) | ("and" | "or", a, b)
         self._scopes = []       # one set of local names per inlined call (callee locals are renamed name@depth)
 
     def _k(self, name):
@@ -171,11 +174,15 @@ class SymExec:
             if cv is False:
                 return self.stmt(ks[2], st) if len(ks) > 2 else [st]
             ctext = re.sub(r"\s", "", C.text(cond))
+            cexpr = None
             try:
-                cval = _canon(self.expr(cond, st))
+                cexpr = self.expr(cond, st)
+                cval = _canon(cexpr)
             except Unsupported:
                 cval = ctext
             a, b = st, st.fork()
+            a.cexprs.append((cexpr, True))
+            b.cexprs.append((cexpr, False))
             a.conds.append((ctext, True))
             b.conds.append((ctext, False))
             a.cvals.append((cval, True))
@@ -406,6 +413,7 @@ class SymExec:
                 c = v.const_value() if isinstance(v, Rat) else None
                 if c is not None:
                     return Rat(Poly.const(0 if c != 0 else 1))
+                self.atoms["!(%s)" % _canon(v)] = ("not", v)
                 return Rat(Poly.var("!(%s)" % _canon(v)))
             raise Unsupported("unary %s" % op)
         if k == "BinaryOperator":
@@ -525,6 +533,7 @@ class SymExec:
             if c is not None:
                 r = {"<": c < 0, "<=": c <= 0, ">": c > 0, ">=": c >= 0, "==": c == 0, "!=": c != 0}[op]
                 return Rat(Poly.const(int(r)))
+            self.atoms["(%s%s%s)" % (_canon(a), op, _canon(b))] = ("cmp", op, a, b)
             return Rat(Poly.var("(%s%s%s)" % (_canon(a), op, _canon(b))))
         if op in ("&&", "||"):
             ca, cb = a.const_value(), b.const_value()
@@ -534,6 +543,11 @@ class SymExec:
                 return Rat(Poly.const(1))
             if ca is not None and cb is not None:
                 return Rat(Poly.const(int(bool(ca) and bool(cb)) if op == "&&" else int(bool(ca) or bool(cb))))
+            # one side is a known constant that does not decide the result: the result is the truth value of the other side
+            other = b if ca is not None else (a if cb is not None else None)
+            if other is not None and _canon(other) in self.atoms:
+                return other
+            self.atoms["(%s%s%s)" % (_canon(a), op, _canon(b))] = ("and" if op == "&&" else "or", a, b)
             return Rat(Poly.var("(%s%s%s)" % (_canon(a), op, _canon(b))))
         raise Unsupported("binary %s" % op)
 
@@ -599,7 +613,12 @@ class SymExec:
         argn = C.call_args(n)
         if name in ("fprintf", "printf", "assert", "__assert_fail"):
             return Rat(Poly.const(0))
-        args = [self.expr(a, st) for a in argn]
+        try:
+            args = [self.expr(a, st) for a in argn]
+        except Unsupported:
+            if n.get("kind") == "CXXMemberCallExpr" and name in ("resize", "assign", "reserve", "clear"):
+                return Rat(Poly.const(0))       # (re)sizing of a container with a constructed element value: no scalar effect
+            raise
         st.calls.append((name, args))
         if self.call_model is not None:
             r = self.call_model(name, args, n, st, self)
@@ -795,3 +814,51 @@ _MATH = {}
 for _f in _MATH_FUNCS:
     for _v in (_f + "f", _f + "l", "__builtin_" + _f, "__builtin_" + _f + "f", "__builtin_" + _f + "l"):
         _MATH[_v] = _f
+
+
+def elementary_facts(ex, value, polarity):
+    """What is known when the condition `value` (a Rat produced by SymExec) has the given truth value, as a list of elementary facts
+    (rel, d) with rel in '<', '<=', '==', '!=' meaning  d rel 0.  A disjunction that is true / a conjunction that is false yields a single
+    ('or', [facts of each alternative]) entry.  Conditions are decoded from the values, so how the source spells them does not matter."""
+    name = None
+    if isinstance(value, str):
+        name = value
+    else:
+        p = value.poly() if isinstance(value, Rat) else None
+        if p is not None and len(p.t) == 1:
+            (m, c), = p.t.items()
+            if c == 1 and len(m) == 1 and m[0][1] == 1:
+                name = m[0][0]
+    at = ex.atoms.get(name) if name is not None else None
+    if at is None:
+        v = Rat(Poly.var(name)) if isinstance(value, str) else value
+        return [("!=" if polarity else "==", v)]
+    if at[0] == "not":
+        return elementary_facts(ex, at[1], not polarity)
+    if at[0] == "cmp":
+        _, op, a, b = at
+        if not polarity:
+            op = {"<": ">=", "<=": ">", ">": "<=", ">=": "<", "==": "!=", "!=": "=="}[op]
+        if op == "<":
+            return [("<", a - b)]
+        if op == "<=":
+            return [("<=", a - b)]
+        if op == ">":
+            return [("<", b - a)]
+        if op == ">=":
+            return [("<=", b - a)]
+        return [(op, a - b)]
+    kind, a, b = at
+    if (kind == "and") == polarity:
+        return elementary_facts(ex, a, polarity) + elementary_facts(ex, b, polarity)
+    return [("or", [elementary_facts(ex, a, polarity), elementary_facts(ex, b, polarity)])]
+
+
+def has_fact(facts, rel, d):
+    """(rel, d) or an equivalent spelling is among the elementary facts ('==' / '!=' up to sign)"""
+    for f in facts:
+        if f[0] != rel:
+            continue
+        if f[1] == d or (rel in ("==", "!=") and f[1] == Rat(Poly.const(0)) - d):
+            return True
+    return False
